@@ -140,8 +140,9 @@ def cases(draw):
     if draw(st.booleans()):
         wk = [k for k in kinds if k not in ("match", "try")]
         wrap = {"func": draw(st.integers(0, nfun - 1)), "kind": draw(st.sampled_from(wk))}
-    # the same skeleton written one construct per line, or each function squeezed onto one physical line (ts/js/rs)
-    return {"kind": "skeleton", "funcs": funcs, "via": via, "wrap": wrap, "layout": draw(st.sampled_from(["lines", "lines", "compact"]))}
+    # the same skeleton written one construct per line, each function squeezed onto one physical line (ts/js/rs), or with
+    # leaf-only blocks written without a block (one-line `if c: stmt`, brace-less bodies, bare match arms, expression closures)
+    return {"kind": "skeleton", "funcs": funcs, "via": via, "wrap": wrap, "layout": draw(st.sampled_from(["lines", "lines", "compact", "terse", "terse"]))}
 
 
 # ------------------------------------------------------------------------------------ running
@@ -367,10 +368,11 @@ def run(ctx):
     cells = []
     for i in range(0, len(mine), group):
         chunk = mine[i:i + group]
-        cells.append({"kind": "skeleton", "via": "cli", "wrap": None,
-                      "funcs": [{"name": f"fn_{j}", "container": "top", "body": b} for j, b in enumerate(chunk)]})
+        for layout in ("lines", "terse"):
+            cells.append({"kind": "skeleton", "via": "cli", "wrap": None, "layout": layout,
+                          "funcs": [{"name": f"fn_{j}", "container": "top", "body": b} for j, b in enumerate(chunk)]})
     done = ctx.each(cells, check)
-    ctx.stats.extra.setdefault("matrix", {})[f"all forests with <= {N} control nodes over if/if-else/if-elif-else/for/while/match"] = {"cells": len(mine), "done": min(len(mine), done * group)}
+    ctx.stats.extra.setdefault("matrix", {})[f"all forests with <= {N} control nodes over if/if-else/if-elif-else/for/while/match"] = {"cells": len(mine), "done": min(len(mine), done * group // 2), "layouts": ["lines", "terse"]}
     ctx.stats.extra["exhaustive_subspace_nodes"] = N
 
 
